@@ -103,10 +103,20 @@ func e2Family(tier string, amevs []int64) []*Job {
 				s4.TxA = []H{102, 103}
 				jobs = append(jobs, job(e2scen(fmt.Sprintf("E2-poolfirst-rejected-block-N4-x%d-%s-%s", x, role, an), 4, x, a, s4), per))
 			}
+			if x == other || x == prim1 {
+				// traffic of the next height (proposal, responses, a full set of change views) is cached while X is still
+				// at height h; X then gets block h from the ledger (sync) and re-initialises: the cached change views are
+				// replayed inside Reset (nested view change)
+				s5 := E2Spec{Views: 1, Proposals: "A", Responses: "A", RespPeers: 1, CVs: 1, NextHeight: true, Skip1: true, Heights: 2, MaxDepth: 9, StateCap: cap1}
+				jobs = append(jobs, job(e2scen(fmt.Sprintf("E2-nextheight-sync-N4-x%d-%s-%s", x, role, an), 4, x, a, s5), per))
+			}
 			if a >= 0 && x == other {
 				fp := e2scen(fmt.Sprintf("E2-oneview-preblock-fails-once-N4-x%d-%s-%s", x, role, an), 4, x, a, s1)
 				fp.FailPre = 1
 				jobs = append(jobs, job(fp, per))
+				fb := e2scen(fmt.Sprintf("E2-oneview-block-fails-once-N4-x%d-%s-%s", x, role, an), 4, x, a, s1)
+				fb.FailBlk = 1
+				jobs = append(jobs, job(fb, per))
 			}
 		}
 	}
